@@ -188,6 +188,30 @@ def _obs_c02(sim, st, acts, gas, o, succ_states, problem, keys, rng):
         ia, ib = pos[("goal", -1)], pos[("goal2", -1)]
         order[ia], order[ib] = order[ib], order[ia]
     o["order"] = ["%s%d" % (k, j) for k, j in order]
+
+    def _match(v):
+        ys = []
+        for (ya, yp) in v:
+            for jj, (a, params) in enumerate(acts):
+                if a.name == ya.name and tuple(str(x) for x in params) == tuple(str(x) for x in yp):
+                    ys.append(jj + 1)
+        return sorted(ys)
+
+    # an enumeration of the applicable actions that is left open while all the other queries run
+    # (consumed partly before, drained after them): it must yield the same set as a fresh one
+    open_it, open_prefix = None, []
+    if rng.random() < 0.6:
+        try:
+            open_it = iter(sim.get_applicable_actions(st))
+            for _ in range(rng.randint(0, 2)):
+                x = next(open_it, None)
+                if x is not None:
+                    open_prefix.append(x)
+        except ImplTimeout:
+            raise
+        except Exception as ex:
+            open_it = None
+            o["yield_exc"] = "X:" + _exc(ex)
     for kind, j in order:
         if kind in ("isapp", "isapp2"):
             a, params = acts[j]
@@ -228,6 +252,12 @@ def _obs_c02(sim, st, acts, gas, o, succ_states, problem, keys, rng):
             # -1: raised UPStateMissingFluentError (documented for this call); -2: any other exception
             o["unsat"] = (-1 if v == "X:UPStateMissingFluentError" else -2) if isinstance(v, str) else len(v)
             o["unsat_exc"] = v if isinstance(v, str) else "none"
+    o["yielded2"] = o.get("yielded", [])
+    if open_it is not None:
+        v = _q(lambda: open_prefix + list(open_it))
+        o["yielded2"] = [] if isinstance(v, str) else _match(v)
+        if isinstance(v, str):
+            o["yield_exc"] = v
     vec_after = upj.state_vector(st, problem, keys)
     for r in recs:
         r["after"] = vec_after
